@@ -39,6 +39,24 @@ CHECKS.update({
              "roles) is not claimed (needs the AST boundary).",
         note="Trusted: operator table in /verif/spec/grammar.py; MIR dump, stubs, z3. Bounds: <= 3 operators (quick) / 4 (thorough) per expression.",
         technique=MC, design="6/C05"),
+    "C11": dict(
+        text="(a) one Cursor::advance_token followed by the real inner_extend_token, and LexedStr::new on whole strings, are executed from MIR "
+             "on symbolic code points. Proved on every path: a token whose kind carries a malformation flag gets an error entry with its own "
+             "index; and, independently of the lexer's flags, if the input starts with a malformed lexeme per the reference lexeme grammar "
+             "(regex -> SMT, /verif/spec/lexemes.py: base prefix without digits, exponent without digits, unterminated string / block comment, "
+             "identifier with forbidden character, malformed version header) the first token carries a diagnostic.",
+        note="Trusted: MIR dump, string model and Unicode tables (read from the locked crate versions), z3. Bounds: tokens <= 4 (quick) / 6 "
+             "(thorough) chars, whole strings <= 2 / 3 chars, version header prefix + 3 / 4 chars. Parts (b), (c) (gating of parser and "
+             "semantic analysis) are covered when vf/gating.py is present; otherwise outside the claim.",
+        technique=MC, design="6/C11"),
+    "C14": dict(
+        text="One advance_token from an arbitrary string of n symbolic code points (the inductive step: the cursor carries no other state, "
+             "which is asserted) and LexedStr::new on whole strings, executed from MIR. Proved on every path: at least one char consumed, "
+             "token length = exact byte length of the consumed chars (so non-zero and on a char boundary), suffix_start <= len, table offsets "
+             "strictly increasing char boundaries ending at |S|; no hidden state is read (MIR scan).",
+        note="Trusted: MIR dump, string model (byte lengths are exact linear forms over len_utf8), Unicode tables from the locked crates, std's "
+             "Chars decoding, z3. Bounds: n <= 4 (quick) / 6 (thorough) chars per token step, whole strings <= 2 / 3 chars; every Unicode scalar value per position.",
+        technique=MC, design="6/C14"),
     "C12": dict(
         text="(a) every StrStep::Error position is a raw-token start or the end of input; (b) a path with no Error event has no ERROR node and "
              "provably no ERROR token, proved on every path of the real to_input/parse/intersperse_trivia code with symbolic raw token kinds; "
